@@ -39,9 +39,8 @@ class CountBranchesLoops( ast.NodeVisitor ):
     for stmt in node.body:
       self.visit( stmt )
 
-    if node.returns:
-      for expr in node.returns:
-        self.visit( expr )
+    # node.returns is the return annotation ( def up() -> None ), a single
+    # expression that has no branches to count
 
   def visit_If( self, node ):
     self.only_loop_at_top &= (self.loop_stack > 0)
